@@ -45,6 +45,14 @@ func (f *Eq) Call(s *slip.Scope, args slip.List, depth int) slip.Object {
 }
 
 func eq(x, y slip.Object) bool {
+	// The empty list is nil whether it is represented by no object or by a
+	// list of length zero, as returned by (list) or (cdr '(1)).
+	if l, ok := x.(slip.List); ok && len(l) == 0 {
+		x = nil
+	}
+	if l, ok := y.(slip.List); ok && len(l) == 0 {
+		y = nil
+	}
 	// Verify the types are the same.
 	if (*[2]uintptr)(unsafe.Pointer(&x))[0] != (*[2]uintptr)(unsafe.Pointer(&y))[0] {
 		return false
